@@ -79,7 +79,7 @@ FirstBody(s) ==
   IN IF idx = {} \/ SuppressBodies THEN None
      ELSE LET i == CHOOSE j \in idx : \A m \in idx : j <= m
               h == s.hs[i]
-          IN CASE DoKBody(s, i) # {} -> Step("KWalk", IF s.rpc = "up" /\ Listening(s) /\ s.dev # "INIT" THEN "EXIT" ELSE "", DoKBody(s, i))
+          IN CASE DoKBody(s, i) # {} -> Step("KWalk", IF s.rpc = "up" /\ Listening(s) /\ Walkable(s.dev) /\ s.beh \notin {"nodone", "fmq"} THEN "EXIT" ELSE "", DoKBody(s, i))
                [] DoKClose(s, i) # {} -> Step("KClose", "", DoKClose(s, i))
                [] DoKPush(s, i) # {} -> Step("Nop", "", DoKPush(s, i))
                [] (~SuppressTerm) /\ DoKGrace(s, i) # {} -> Step("Nop", "", DoKGrace(s, i))
@@ -152,8 +152,13 @@ ViolOf(t) ==
 GenInit ==
   /\ Init
   /\ plan \in Plans(kind, beh)
-  /\ hold = (kind = "ctl" /\ \E j \in 1..Len(plan) : plan[j].when = "reaped")
-  /\ deep \in (IF kind = "ctl" /\ beh \notin {"noready", "stuck"} THEN BOOLEAN ELSE {FALSE})
+  \* the event loop serves agent events before a queued terminal status: needed to send a request to a controllable
+  \* task that is "reaped", and explored for a second Kill of a basic / hook task that comes after the first one is done
+  /\ hold \in (IF kind = "ctl" THEN {\E j \in 1..Len(plan) : plan[j].when = "reaped"}
+               ELSE IF Len(plan) = 2 /\ plan[1].r = "Kill" /\ plan[2].r = "Kill" /\ plan[2].at = "calm"
+                       /\ plan[1].when = plan[2].when THEN {FALSE, TRUE}
+               ELSE {FALSE})
+  /\ deep \in (IF kind = "ctl" /\ beh \notin {"noready", "stuck", "midstate"} THEN BOOLEAN ELSE {FALSE})
   /\ tmo \in (IF kind = "ctl" /\ beh \in {"noready", "stuck"} /\ Len(plan) = 0 THEN {TRUE} ELSE {FALSE})
   /\ pi = 1 /\ hist = <<>> /\ bad = {} /\ fin = FALSE
 
